@@ -125,8 +125,12 @@ def gen(rng):
     n = rng.choice([1, 1, 2, 2, 3, 4, 8])
     mode = "graceful" if rng.random() < 0.72 else "forced"
     T = rng.choice([250, 400, 700])
-    style = rng.choice(["plain", "plain", "blocked", "blocked", "blocked", "overflow"])
+    style = rng.choice(["plain", "plain", "blocked", "blocked", "blocked", "overflow", "lateack"])
     conns, gates = [], []
+    if style == "lateack":
+        # one worker never becomes idle, another one does so late (a long handler that still finishes before the
+        # timeout): the shutdown future is due at the timeout, counted from the call and not from the last acknowledgement
+        n, mode, T = max(n, 2), "graceful", 700
 
     def pre_plain():
         d = rng.choice([20, 60, 120, T + 300])
@@ -140,11 +144,14 @@ def gen(rng):
         # afterwards queues up behind it (and overflows to the next worker past the capacity)
         for _ in range(rng.randrange(0, 3)):
             conns.append({"pre": rng.choice([[["f"]], [["s", rng.choice([20, 60, T + 300])]], []]), "post": []})
-        gates.append(rng.choice([-2, -2, 0, 30, 80, 80, T + 200, -1]))
+        gates.append(rng.choice([-2, -2, 0, 30, 80, 80, T + 200, -1]) if style != "lateack" else rng.choice([-1, T + 400]))
         conns.append({"pre": [["b", 0]], "post": []})
-        q = rng.randrange(1, 8) if style == "blocked" else rng.randrange(14, 22)
+        q = rng.randrange(1, 8) if style == "blocked" else rng.randrange(14, 22) if style == "overflow" else 16
         for _ in range(q):
             conns.append({"pre": rng.choice([[["f"]], [["f"]], [["s", rng.choice([20, 60])]], []]), "post": []})
+        if style == "lateack":
+            for _ in range(rng.randrange(1, 3)):
+                conns.append({"pre": [["s", rng.choice([350, 450, 500])]], "post": []})
         if style == "overflow" and n >= 2 and rng.random() < 0.5:
             # park the second worker too
             gates.append(rng.choice([-2, 30, -1]))
